@@ -208,7 +208,7 @@ theorem contracts (C : Cfg) (hC : C.OK) : Contracts C (spec C) coverage where
       cases o with
       | kll o =>
         exact TripleS.map (fun r : Kll.Sketch × Kll.Sketch => (Obj.kll r.1, Obj.kll r.2))
-          ((Kll.moveAssign_contract C.kll n0 t o ids0).conseq (fun h ⟨i, u, dj, e, n, _⟩ => ⟨i, u, dj, e, n⟩) (fun _ _ x => x))
+          ((Kll.moveAssign_contract C.kll C.kll.moveAssignResetsSource n0 t o ids0).conseq (fun h ⟨i, u, dj, e, n, _⟩ => ⟨i, u, dj, e, n⟩) (fun _ _ x => x))
       | table s => simp [Obj.cls] at hc
       | fi s => simp [Obj.cls] at hc
     | fi t =>
